@@ -808,6 +808,86 @@ def _culture_name_histories(depth):
 
 
 
+# ---- a mutable culture: reads interleaved with writes ---------------------------------------------------------------------------
+
+def _mutable_culture_ops():
+    from pyoda_time import LocalDateTime, LocalTime
+    from pyoda_time.text import LocalDatePattern, LocalDateTimePattern, LocalTimePattern
+    ldt = LocalDateTime(2024, 3, 9, 17, 5, 42)
+    gets = []
+    for attr in ("full_date_time_pattern", "long_date_pattern", "long_time_pattern", "short_date_pattern", "short_time_pattern", "month_day_pattern",
+                 "am_designator", "pm_designator"):
+        gets.append(("get:" + attr, lambda c, attr=attr: getattr(c.date_time_format, attr)))
+    for letter in "FfGg":
+        gets.append(("ldt-pattern:" + letter, lambda c, letter=letter: LocalDateTimePattern.create(letter, c).format(ldt)))
+    for letter in "Dd":
+        gets.append(("date-pattern:" + letter, lambda c, letter=letter: LocalDatePattern.create(letter, c).format(ldt.date)))
+    for letter in "Tt":
+        gets.append(("time-pattern:" + letter, lambda c, letter=letter: LocalTimePattern.create(letter, c).format(LocalTime(17, 5, 42))))
+    sets = []
+    for attr, val in (("long_time_pattern", "HH'h'mm'm'ss"), ("short_time_pattern", "H'h'mm"), ("long_date_pattern", "yyyy MMMM dd"), ("short_date_pattern", "yy/M/d"),
+                      ("am_designator", "a.m."), ("pm_designator", "p.m.")):
+        sets.append(("set:" + attr, lambda c, attr=attr, val=val: setattr(c.date_time_format, attr, val)))
+    return gets, sets
+
+
+def _mutable_culture_histories(arg):
+    """one mutable CultureInfo per history; reads (properties and standard patterns) interleaved with property writes; afterwards
+    every read must answer as on a culture that received the same writes in the same order and was never read before"""
+    first, depth, cname = arg
+    from pyoda_time._compatibility._culture_info import CultureInfo
+    acc = Acc()
+    gets, sets = _mutable_culture_ops()
+    ops = gets + sets
+    nset = {n for n, _ in sets}
+
+    def observe(c):
+        out = []
+        for n, fn in gets:
+            try:
+                out.append((n, fn(c)))
+            except Exception as e:  # noqa: BLE001
+                if exc_origin(e) == "harness":
+                    raise
+                out.append((n, "raises " + type(e).__name__))
+        return out
+    oracle = {}
+    n = 0
+    for d in range(1, depth + 1):
+        for rest in itertools.product(range(len(ops)), repeat=d - 1):
+            hist = (first,) + rest
+            writes = tuple(k for k in hist if ops[k][0] in nset)
+            if not writes or all(ops[k][0] in nset for k in hist):
+                continue    # no write, or no read before a write: nothing a stale cached value could come from
+            n += 1
+            acc.count(evaluations=1, transitions=len(hist))
+            c = CultureInfo(cname)
+            try:
+                for k in hist:
+                    ops[k][1](c)
+                got = observe(c)
+                if writes not in oracle:
+                    r = CultureInfo(cname)
+                    for k in writes:
+                        ops[k][1](r)
+                    oracle[writes] = observe(r)
+            except Exception as e:  # noqa: BLE001
+                acc.lib_exception("C13/mutable-culture/%s" % cname, e, {"history": [ops[k][0] for k in hist]})
+                continue
+            if got != oracle[writes]:
+                diff = [(a[0], a[1], b[1]) for a, b in zip(got, oracle[writes]) if a != b]
+                acc.violation("C13/mutable-culture/stale-after-write/%s" % diff[0][0],
+                              "culture %s after %r: %s answers %r; a culture that received only the writes %r answers %r" % (
+                                  cname, [ops[k][0] for k in hist], diff[0][0], diff[0][1], [ops[k][0] for k in writes], diff[0][2]),
+                              {"kind": "mutable-culture", "culture": cname, "history": [ops[k][0] for k in hist]})
+    acc.count(states=n, nontrivial=n)
+    acc.outcome("mutable-culture:%s" % cname)
+    if first == 0:
+        acc.sample({"mutable_culture_alphabet": [o[0] for o in ops], "depth": depth, "culture": cname})
+    return acc
+
+
+
 def _calendar_routes():
     routes = []
     for cid in CalendarSystem.ids:
@@ -1623,6 +1703,10 @@ def run(ctx):
     ctx.merge_part("hist_provider_custom_source", _provider_histories_custom(3 if tier == "quick" else 4))
     ctx.merge_part("hist_fixed_zones", _fixed_zone_histories(2 if tier == "quick" else 3))
     ctx.merge_part("hist_culture_names", _culture_name_histories(2 if tier == "quick" else 3))
+    g_, s_ = _mutable_culture_ops()
+    mjobs = [(k, 3, cn) for cn in (("en-US",) if tier == "quick" else ("en-US", "fr-FR", "de-DE")) for k in range(len(g_) + len(s_))]
+    for acc in pmap(_mutable_culture_histories, mjobs):
+        ctx.merge_part("hist_mutable_culture", acc)
     nops = len(_source_alphabet())
     for acc in pmap(_source_histories, [(k, 2 if tier == "quick" else 3) for k in range(nops)]):
         ctx.merge_part("hist_tzdb_source", acc)
